@@ -217,6 +217,46 @@ def sm_foreign(world):
                 w2, status = P.drain(w)
                 yield from _sad_check(w2, name, lab + ':drained', 'after an authentic DELETE of CHILD_SA %s on its %s IKE_SA and '
                                       'a drain' % (spi.hex(), sa.state.name))
+            own = [(P.proto_num(c), bytes(c.outbound_spi), bytes(c.inbound_spi)) for c in sa.child_sas]
+            if sa.state == State.ESTABLISHED and own:
+                # (a') a DELETE that names the SPI of a CHILD_SA under the OTHER IPsec protocol (a peer that numbers its SPIs
+                # per protocol): it concerns no CHILD_SA of ours - nothing leaves the kernel, nothing leaves the tracking
+                proto, spi, _ = own[0]
+                data = F.protect(bytes(sa.spi_i), bytes(sa.spi_r), 37, flags, sa.peer_msg_id,
+                                 [(F.DELETE, F.d_body(2 if proto == 50 else 3, [spi]))], keys)
+                w = world.fork()
+                before = (len(w.endpoints[name].kernel.sad), sum(len(x.child_sas) for x in w.endpoints[name].controller.ike_sas))
+                w.step(('inject', name, data, str(sa.peer_addr)))
+                w.history.append(('inject', name, data, str(sa.peer_addr)))
+                C.COVER['foreign:child-delete-other-protocol'] += 1
+                e2 = w.endpoints[name]
+                after = (len(e2.kernel.sad), sum(len(x.child_sas) for x in e2.controller.ike_sas))
+                if e2.alive and after != before:
+                    yield ('M-del', 'foreign-delete-other-protocol:%s' % ('esp-spi-as-ah' if proto == 50 else 'ah-spi-as-esp'),
+                           'an authentic DELETE naming protocol %s and SPI %s (which is the SPI of a %s CHILD_SA) changed %s: SAs in the '
+                           'kernel %d -> %d, CHILD_SAs tracked %d -> %d' % ('AH' if proto == 50 else 'ESP', spi.hex(),
+                                                                            'ESP' if proto == 50 else 'AH', name, before[0], after[0],
+                                                                            before[1], after[1]), list(w.history))
+                yield from _sad_check(w, name, 'foreign-delete-other-protocol', 'after an authentic DELETE naming the other IPsec protocol')
+                # (a'') one INFORMATIONAL request that deletes every CHILD_SA and then the IKE_SA itself (several DELETE payloads,
+                # the one for the IKE_SA last): the IKE_SA ends, with everything it had in the kernel
+                pls = [(F.DELETE, F.d_body(3 if p_ == 50 else 2, [o_])) for p_, o_, _ in own] + [(F.DELETE, F.d_body(1, []))]
+                data = F.protect(bytes(sa.spi_i), bytes(sa.spi_r), 37, flags, sa.peer_msg_id, pls, keys)
+                w = world.fork()
+                w.step(('inject', name, data, str(sa.peer_addr)))
+                w.history.append(('inject', name, data, str(sa.peer_addr)))
+                w.step(('tick', 1.5))
+                w.history.append(('tick', 1.5))
+                C.COVER['foreign:delete-everything-in-one-request'] += 1
+                e2 = w.endpoints[name]
+                if e2.alive:
+                    still = [x for x in e2.controller.ike_sas if bytes(x.my_spi) == bytes(sa.my_spi)]
+                    mine = {k for k in e2.kernel.sad if k[2] in [o_ for _, o_, _ in own] + [i_ for _, _, i_ in own]}
+                    if still or mine:
+                        yield ('M-del', 'foreign-delete-all:ike-sa-%s:sas-left=%d' % ('kept' if still else 'gone', len(mine)),
+                               'an authentic INFORMATIONAL request with DELETE payloads for every CHILD_SA and, last, for the IKE_SA: '
+                               '%s still holds the IKE_SA: %s; %d of its SAs are still in the kernel' % (
+                                   name, [x.state.name for x in still], len(mine)), list(w.history))
         # an authentic IKE_SA rekey request that cannot be completed for a reason the code does not expect (a KE value that
         # is no public value of the group, no nonce): the IKE_SA may go, but then with everything it installed
         import message as _m
